@@ -1,13 +1,14 @@
 """C09 — Full JSON dumps conform to the published schema.
 
-(T) coq/Gen/C09_schema.v regenerated from /repo/docs/schema.json + enumerations.py (harness/translate/c09_schema.py)
+(T) coq/Gen/C09_schema.v from docs/schema.json + enumerations.py; Gen/C09_exprs.v from expressions.py + docstrings/models.py;
+    Gen/C09_load.v from the loaders' construction sites (harness/translate/c09_*.py)
 (O) model `validates` (Coq, on the regenerated schema term)  vs  jsonschema on whole documents, on every node's
     local document (members emptied) and on randomly mutated (mostly invalid) documents
-(C) model `enc_full` on the harness's abstraction of the live Griffe tree  vs  json.loads(obj.as_json(full=True)), node by
-    node; membership of every real document in the encoder grammar G_enc
-direct: a loaded tree whose full dump raises (deep-expression sweep included)  =>  violation;
-        jsonschema rejects a dump (whole document or any node)  =>  violation (findings F1..F5 were repaired: no classifier is left).
-        known: C09-F6, the dump of a namespace package raises ValueError when no directory of it is below the cwd.
+(C) model `dump cwd tree` (path fields derived, expressions and section items encoded concretely) on the harness's abstraction
+    of the live Griffe tree  vs  as_json(full=True) from that cwd -- documents and exceptions; membership of every real
+    document in the encoder grammar G_enc; path functions on API-built modules; construction-site models vs the loaders
+direct: a loaded tree whose full dump raises, or whose dump jsonschema rejects (whole document or any node)  =>  violation,
+        unless the extracted model of the unrepaired code fails the same way on that very input (known: C09-F6, F7, F8).
 """
 from __future__ import annotations
 
@@ -22,39 +23,51 @@ from harness.common.framework import ModelUnavailable as ModelUnavailableError
 from harness.translate import c09_exprs, c09_load, c09_schema
 
 ID = "C09"
-LEVEL_TEXT = ("Theorems: a generic inclusion checker between shape grammars and the JSON-schema subset used by docs/schema.json is sound for "
-              "all documents (incl G S = true -> every document generated by G validates against S; the recursive members/$ref:# pair is "
-              "discharged by the top-level check, oneOf/if-then through a verified exclusion checker); a Gallina model of "
-              "as_dict(full=True)+JSONEncoder for Module/Class/Function/Attribute/Alias/Parameter/Decorator/Docstring/sections always emits a "
-              "document of the encoder grammar (all trees, any nesting, every optional-field combination); the grammar "
-              "is included in the schema *as regenerated from the file on this run* (by computation); hence every full dump of a loadable tree validates "
-              "(full strength: findings F1..F5 were repaired in docs/schema.json, their witnesses are corpus cases and Coq examples that validate). "
-              "Ties on every run: validator model vs jsonschema (real, per-node and mutated documents), encoder model vs as_json(full=True) node by node "
-              "on generated packages loaded statically and dynamically with and without alias resolution and with every docstring parser, grammar "
-              "membership of every real document; depth sweep: deep expressions that load must dump and validate. Known: C09-F6 (namespace dump raises from another cwd).")
-LEVEL_NOTE = ("Trusted: Coq kernel, extraction, the translator (fail-closed on any keyword outside the subset; const/enum must be strings; $ref siblings "
-              "must be annotations), jsonschema 4.x Draft7Validator as authority, the abstraction live object -> model tree. Expression objects "
-              "(`cls` + dataclass fields) and docstring section items are opaque JSON in the model (the schema accepts any object / any array there); "
-              "their concrete shapes are exercised by the correspondence only. `loadable` (decorators have a line number, parameters a kind, module "
-              "has a file path, section kinds are enumeration values) is a hypothesis of the theorems and is checked on every real tree. Fuel: the "
-              "theorems give `exists fuel` plus fuel-monotonicity; the harness uses 16*(depth+2) and treats a missing verdict as a broken tie.")
+LEVEL_TEXT = ("Theorems (27, closed): a generic inclusion checker between shape grammars and the JSON-schema subset used by docs/schema.json is sound for "
+              "all documents (oneOf / if-then through a verified exclusion checker, the recursive members/$ref:# pair discharged by the top-level check); a "
+              "Gallina model of as_dict(full=True)+JSONEncoder -- object skeleton, expressions concretely (class + dataclass fields as regenerated from "
+              "expressions.py), docstring section items concretely (per section kind, regenerated from docstrings/models.py) -- always emits a document of "
+              "the encoder grammar; the grammar is included in the schema as regenerated on this run (by computation); the schema accepts any object as "
+              "an expression (theorem); the three path fields are derived inside the model (relative_to / parent / the four branches of "
+              "relative_package_filepath, Python exceptions explicit): a module in ANY portion of a namespace package has a relative package path; for every "
+              "cwd and every tree whose module files lie below the package's directories the dump raises exactly in the F6 situation (else TypeError for an "
+              "unserialisable default, else a document), and every document produced validates; `loadable` is derived from a model of the loaders' "
+              "construction sites (decorator line numbers from ast nodes, parameter kinds per ast.arguments bucket / inspect kind, section kinds per class, "
+              "file paths from the finder): src_ok s -> ploadable (build s); refutation witnesses for the known findings F6, F7, F8. "
+              "Ties on every run: validator model vs jsonschema (real, per-node, mutated documents); dump(model) vs as_json(full=True) -- documents and "
+              "exceptions -- on generated regular / multi-portion namespace / stubs-package / inspector pass-through layouts, static and dynamic, with and "
+              "without alias resolution, every parser, from several working directories; path functions vs the properties on API-built modules; the "
+              "construction-site models vs the loaders for every function (source ast / inspect.signature on the harness side); grammar membership and "
+              "loadable of every real tree; depth sweep.")
+LEVEL_NOTE = ("Trusted: Coq kernel, extraction, the three translators (fail closed), jsonschema 4.x Draft7Validator as authority, the abstraction live object -> "
+              "model tree (reads attributes and dataclass fields, never as_dict / relative_* / filepath of objects). Not modelled: the expression builder "
+              "(ast -> Expr) and the parsers' item construction -- `fval_ok` (class in the table, one value per field, scalar vs sequence) and the section "
+              "value shapes are hypotheses inside `loadable`/`src_ok`, checked on every real tree; declared element types of expression fields are not "
+              "honoured by Griffe at run time and not modelled. `placed` (module files below the package directories) is sufficient, not necessary. Known "
+              "findings F6, F7, F8 are attributed only when the extracted model of the unrepaired code fails the same way on that very tree and cwd; the "
+              "prepared repairs (F6, F8) are not landed, the model describes /repo as it is. Fuel: `exists fuel` + monotonicity; harness uses 16*(depth+2).")
 MODEL = ("Model.C09_top", "run_C09_top")
 MODEL_TARGETS = ["Model/C09_top.vo"]
 COQ_TARGETS = ["Proofs/C09_schema.vo", "Proofs/C09_mem.vo", "Proofs/C09_expr.vo", "Proofs/C09_enc.vo", "Proofs/C09_perm.vo", "Proofs/C09_paths.vo", "Proofs/C09_load.vo"]
-RULE = ("generated packages under the scratch directory: a fixed feature-complete module (every expression class reachable from source, all "
-        "parameter kinds, decorators, bases, nested classes, properties, overloads, dataclass, wildcard/relative/external imports, __all__, "
-        "classes/functions/attributes defined under `if TYPE_CHECKING:` at module and class level (runtime=False objects)) plus "
-        "random modules/subpackages/namespace directories/stubs with random docstrings in google/numpy/sphinx style covering every section kind; "
-        "each package loaded statically and dynamically (unique names), with/without alias resolution, with parser none/google/numpy/sphinx; one "
-        "case per distinct node document (members emptied) and per whole document; separate stream of randomly mutated node documents for the "
-        "validator tie; depth sweep: chains of 40..530 operands (|, +, attribute chains, and/or, comparisons, nested subscripts/calls, unary) as "
-        "attribute values and as defaults/annotations/returns/bases/decorators, default recursion limit: whatever loads must dump and validate. non-trivial = node has an optional field, a kind-specific field or a parsed docstring; distinct by canonical JSON")
-TRUSTED = ["translator harness/translate/c09_schema.py (whitelisted JSON-schema keywords; fails closed)",
+RULE = ("generated layouts under the scratch directory: regular packages (a fixed feature-complete module: every expression class reachable from "
+        "source, all parameter kinds, decorators, bases, nested classes, properties, overloads, dataclass, wildcard/relative/external imports, __all__, "
+        "typing-only definitions; random modules/subpackages/namespace subdirectories/stubs with google/numpy/sphinx docstrings covering every section "
+        "kind); native namespace packages over 1..3 search paths (the first two of a run have 2 and 3 portions) with modules and regular subpackages in "
+        "every portion, a nested namespace over a random non-empty subset of the portions and a second level, pkg_resources-style portions, imports across "
+        "portions; stubs-only packages on the same / another search path; inspector pass-through modules (defaults whose __name__ is an int / list / None / "
+        "object, annotation objects with unparsable / parsable repr); each loaded statically and dynamically, with/without alias resolution, parser "
+        "none/google/numpy/sphinx, and dumped from: above everything, a search path, a namespace directory, the package directory, an unrelated "
+        "directory, the file-system root; 1.5k/20k random (package path, module path, cwd) triples on API-built modules for the path functions; one "
+        "builder case per function; one case per distinct node document and per whole document; mutated node documents for the validator tie; depth "
+        "sweep 40..530 operands. non-trivial = node has an optional field, a kind-specific field or a parsed docstring; distinct by canonical JSON")
+TRUSTED = ["translators harness/translate/c09_schema.py (whitelisted JSON-schema keywords), c09_exprs.py, c09_load.py (all fail closed)",
            "jsonschema Draft7Validator (the `$schema` the file names) as the authority for validity",
-           "abstraction: harness reads name/path/filepath/lineno/docstring/labels/members/bases/decorators/parameters/returns/value/annotation "
-           "from live Griffe objects into the model tree; expressions and docstring section items are passed as their JSON encoding"]
+           "abstraction: harness reads name/path/Module._filepath/lineno/docstring/labels/members/bases/decorators/parameters/returns/value/annotation "
+           "from live Griffe objects into the model tree; expressions field by field (dataclasses.fields), section items attribute by attribute; the cwd "
+           "from os.getcwd()"]
 ASSUMPTIONS = ["packages are loaded from files on disk (builtin modules with filepath None are outside the property)",
-               "expression and section-item contents are unconstrained by the schema (checked by the translator: #/$defs/expression is {type: object, additionalProperties: true}; section value is string|array) so they are opaque in the model"]
+               "POSIX paths; search paths are given resolved (no symlink between the cwd and the package)",
+               "loads go through GriffeLoader.load (static visitor / inspector / stub merging); trees assembled through the API are outside `loadable`"]
 TRANSLATOR_NAME = "harness/translate/c09_schema.py"
 
 
@@ -1141,8 +1154,18 @@ def check_builders(st: State, top, layout: dict, mode: str, label: dict):
                 ctx.observe("builders_inspect_default", "object" if od == 1 else ("string" if isinstance(d, str) else "none" if d == ["n"] else "raw"))
         for row in got:
             ctx.observe("builders_kind", row[1])
-        if got != e:
+        if no_addresses(got) != no_addresses(e):
             ctx.tie_failure("correspondence", f"{q[0]} (model of the construction site) vs the loader", {"model": got, "loader": e}, case)
+
+
+def no_addresses(v):
+    """memory addresses in reprs differ between Griffe's import of a module and the harness's own: never compared"""
+    import re
+    if isinstance(v, str):
+        return re.sub(r"0x[0-9a-fA-F]+", "0x?", v)
+    if isinstance(v, list):
+        return [no_addresses(x) for x in v]
+    return v
 
 
 def enc_or_object(v):
